@@ -5,7 +5,8 @@ patch=$1; tier=$2; shift 2
 cd /repo || exit 2
 if ! git diff --quiet; then echo "repo dirty"; exit 2; fi
 git apply "$patch" || { echo "patch does not apply"; exit 2; }
-trap 'git -C /repo checkout -- . ; git -C /repo clean -qfd -- teos/src watchtower-plugin/src teos-common/src' EXIT
+# (on exit the harness is rebuilt from the clean tree: the binary must never outlive the change it was built with)
+trap 'git -C /repo checkout -- . ; git -C /repo clean -qfd -- teos/src watchtower-plugin/src teos-common/src; (cd /verif/harness && cargo build >/dev/null 2>&1; cargo build --offline --manifest-path /repo/teos/Cargo.toml --features verif --bin teosd --target-dir /verif/harness/target/repo-bins >/dev/null 2>&1; cargo build --offline --manifest-path /repo/watchtower-plugin/Cargo.toml --features verif --bin watchtower-client --target-dir /verif/harness/target/repo-bins >/dev/null 2>&1)' EXIT
 mkdir -p /var/tmp/mutrun; cp /verif/known_findings.json /verif/properties.jsonl /var/tmp/mutrun/
 cd /verif/harness && cargo build 2>&1 | grep -E "^error" -A 8
 for c in "$@"; do
